@@ -86,7 +86,7 @@ inductive MPc
   | cbAcq | cbWake | cbRel                                    -- weak-reference callback run by the manager
   | flagAcq | flagRel
   | brkAcq (b : Broken) | brkRel (b : Broken)
-  | kill (p : Pid) (join : Bool) | killJoin (p : Pid) (join : Bool)   -- `join`: continue with JOIN afterwards
+  | kill (p : Pid) | killJoin (p : Pid)
   | jAcq1 | jRelExit (ps : List Pid) (n : Nat) | jRel1 (n : Nat)
   | jAliveAcq (n sent cool : Nat) | jAlive (ps : List Pid) (cnt n sent cool : Nat) | jAliveRel (cnt n sent cool : Nat)
   | jPut (k n sent cool : Nat) | jPutTStart (k n sent cool : Nat) | jSleep (n sent cool : Nat)
@@ -116,6 +116,11 @@ inductive UPc
   | done
 deriving Repr, DecidableEq
 
+inductive Actor | U (k : Nat) | M | F | W (p : Pid)
+deriving Repr, DecidableEq
+inductive Variant | ok | timeout | fail | crash
+deriving Repr, DecidableEq
+
 structure Cfg where
   maxWorkers : Nat
   timeout    : Bool
@@ -137,7 +142,13 @@ structure St where
   cqWlock : Nat := 1
   rqWlock : Nat := 1
   exitL : Pid → Nat := fun _ => 0
-  -- ghost: which worker holds a lock (for the invariants; not used by `step`)
+  -- ghost: who holds each binary lock (never read by `step`; used by the invariants)
+  oMgmt : Option Actor := none
+  oShut : Option Actor := none
+  oGshut : Option Actor := none
+  oCqRlock : Option Actor := none
+  oCqWlock : Option Actor := none
+  oRqWlock : Option Actor := none
   -- pipes / buffers
   wakeup : Nat := 0
   wakeupClosed : Bool := false
@@ -185,11 +196,6 @@ def upd {α : Type} (f : Nat → α) (p : Nat) (v : α) : Nat → α := fun q =>
 def alive (s : St) (p : Pid) : Bool := s.w p != .dead
 def isDead (s : St) (p : Pid) : Bool := s.w p == .dead
 
-inductive Actor | U (k : Nat) | M | F | W (p : Pid)
-deriving Repr, DecidableEq
-inductive Variant | ok | timeout | fail | crash
-deriving Repr, DecidableEq
-
 def acq (v : Nat) : Option Nat := if v > 0 then some (v - 1) else none
 
 def specOf (s : St) (t : Tid) : TaskSpec := s.cfg.tasks.getD t {}
@@ -227,10 +233,11 @@ def mAdd (s : St) : St := mAddFuel (s.workIds.length + 1) s
 
 def mJoinStart (s : St) : St := { s with mpc := .jAcq1 }
 
-def mKillNext (s : St) (join : Bool) (after : St → St) : St :=
+/-- `kill_workers()`: pop and kill every registered worker, then `join_executor_internals` -/
+def mKillNext (s : St) : St :=
   match s.procDict.getLast? with
-  | some p => { s with procDict := s.procDict.dropLast, mpc := .kill p join }
-  | none => after s
+  | some p => { s with procDict := s.procDict.dropLast, mpc := .kill p }
+  | none => mJoinStart s
 
 /-- after an item (or a bare wake-up) has been processed: `is_shutting_down()`? -/
 def mAfterItem (s : St) : St :=
@@ -294,7 +301,7 @@ def mAfterPut (s : St) (k n sent cool : Nat) : St :=
 def mAfterFlag (s : St) : St :=
   if s.killFlag then
     let s := { (failAll s s.pending .excShutdown) with pending := [] }
-    mKillNext s true mJoinStart
+    mKillNext s
   else if s.pending = [] then mJoinStart s
   else mAdd s
 
@@ -377,14 +384,14 @@ def stepW (s : St) (p : Pid) (v : Variant) : Option St :=
       let s := { s with initLog := s.initLog ++ [p] }
       if (p - 100) ∈ s.cfg.initFail then some (set (.exit 0) s) else some (wGet s p)
   -- blocking get
-  | .gAcq, .ok => (acq s.cqRlock).map fun x => set .gRecv { s with cqRlock := x }
+  | .gAcq, .ok => (acq s.cqRlock).map fun x => set .gRecv { s with cqRlock := x, oCqRlock := some (.W p) }
   | .gRecv, .ok => match s.cqPipe with
       | m :: rest => some (set (.gRel m) { s with cqPipe := rest })
       | [] => none
-  | .gRel m, .ok => some (set (.gSem m) { s with cqRlock := s.cqRlock + 1 })
+  | .gRel m, .ok => some (set (.gSem m) { s with cqRlock := s.cqRlock + 1, oCqRlock := none })
   | .gSem m, .ok => some (wDispatch { s with cqSem := s.cqSem + 1 } p m)
   -- get with time-out
-  | .tAcq, .ok => (acq s.cqRlock).map fun x => set .tPoll { s with cqRlock := x }
+  | .tAcq, .ok => (acq s.cqRlock).map fun x => set .tPoll { s with cqRlock := x, oCqRlock := some (.W p) }
   | .tAcq, .timeout => if s.cqRlock = 0 then some (set .eTry s) else none
   | .tPoll, .ok => if s.cqPipe ≠ [] then some (set .tRecv s) else none
   | .tPoll, .timeout => if s.cqPipe = [] then some (set .tRelE s) else none
@@ -392,12 +399,12 @@ def stepW (s : St) (p : Pid) (v : Variant) : Option St :=
       | m :: rest => some (set (.tSem m) { s with cqPipe := rest })
       | [] => none
   | .tSem m, .ok => some (set (.tRel m) { s with cqSem := s.cqSem + 1 })
-  | .tRel m, .ok => some (wDispatch { s with cqRlock := s.cqRlock + 1 } p m)
-  | .tRelE, .ok => some (set .eTry { s with cqRlock := s.cqRlock + 1 })
+  | .tRel m, .ok => some (wDispatch { s with cqRlock := s.cqRlock + 1, oCqRlock := none } p m)
+  | .tRelE, .ok => some (set .eTry { s with cqRlock := s.cqRlock + 1, oCqRlock := none })
   -- queue.Empty: leave unless workers are being spawned
-  | .eTry, .ok => (acq s.mgmt).map fun x => set .eRel { s with mgmt := x }
+  | .eTry, .ok => (acq s.mgmt).map fun x => set .eRel { s with mgmt := x, oMgmt := some (.W p) }
   | .eTry, .fail => if s.mgmt = 0 then some (wGet s p) else none
-  | .eRel, .ok => some (set .xAcq { s with mgmt := s.mgmt + 1 })
+  | .eRel, .ok => some (set .xAcq { s with mgmt := s.mgmt + 1, oMgmt := none })
   -- a call item
   | .task w t, .ok => some (set (.taskEnd w t) { s with execLog := s.execLog ++ [(p, t)] })
   | .taskEnd w t, .ok =>
@@ -407,23 +414,23 @@ def stepW (s : St) (p : Pid) (v : Variant) : Option St :=
       | .die => some (die s p (-11))
       | .raises => some (set (.rAcq w true false) s)
       | .ok => some (set (.rAcq w false (sp.res == .badunpickle)) s)
-  | .rAcq w e b, .ok => (acq s.rqWlock).map fun x => set (.rSend w e b) { s with rqWlock := x }
+  | .rAcq w e b, .ok => (acq s.rqWlock).map fun x => set (.rSend w e b) { s with rqWlock := x, oRqWlock := some (.W p) }
   | .rSend w e b, .ok => some (set .rRel { s with rqPipe := s.rqPipe ++ [.res w e b] })
-  | .rRel, .ok => some (wAfterResult { s with rqWlock := s.rqWlock + 1 } p)
+  | .rRel, .ok => some (wAfterResult { s with rqWlock := s.rqWlock + 1, oRqWlock := none } p)
   -- the call item failed to un-pickle: report and exit(1)
-  | .bAcq, .ok => (acq s.rqWlock).map fun x => set .bSend { s with rqWlock := x }
+  | .bAcq, .ok => (acq s.rqWlock).map fun x => set .bSend { s with rqWlock := x, oRqWlock := some (.W p) }
   | .bSend, .ok => some (set .bRel { s with rqPipe := s.rqPipe ++ [.rtb] })
-  | .bRel, .ok => some (set (.exit 1) { s with rqWlock := s.rqWlock + 1 })
+  | .bRel, .ok => some (set (.exit 1) { s with rqWlock := s.rqWlock + 1, oRqWlock := none })
   -- clean exit handshake
-  | .xAcq, .ok => (acq s.rqWlock).map fun x => set .xSend { s with rqWlock := x }
+  | .xAcq, .ok => (acq s.rqWlock).map fun x => set .xSend { s with rqWlock := x, oRqWlock := some (.W p) }
   | .xSend, .ok => some (set .xRel { s with rqPipe := s.rqPipe ++ [.pid p] })
-  | .xRel, .ok => some (set .xExit { s with rqWlock := s.rqWlock + 1 })
+  | .xRel, .ok => some (set .xExit { s with rqWlock := s.rqWlock + 1, oRqWlock := none })
   | .xExit, .ok => (acq (s.exitL p)).map fun x => set (.exit 0) { s with exitL := upd s.exitL p x }
   | .xExit, .timeout => if s.exitL p = 0 then some (set (.exit 0) s) else none
   -- memory-leak exit
-  | .lAcq, .ok => (acq s.rqWlock).map fun x => set .lSend { s with rqWlock := x }
+  | .lAcq, .ok => (acq s.rqWlock).map fun x => set .lSend { s with rqWlock := x, oRqWlock := some (.W p) }
   | .lSend, .ok => some (set .lRel { s with rqPipe := s.rqPipe ++ [.pid p] })
-  | .lRel, .ok => some (set .lExitAcq { s with rqWlock := s.rqWlock + 1 })
+  | .lRel, .ok => some (set .lExitAcq { s with rqWlock := s.rqWlock + 1, oRqWlock := none })
   | .lExitAcq, .ok => (acq (s.exitL p)).map fun x => set .lExitRel { s with exitL := upd s.exitL p x }
   | .lExitRel, .ok => some (set (.exit 0) { s with exitL := upd s.exitL p (s.exitL p + 1) })
   | .exit c, .ok => some (die s p c)
@@ -433,21 +440,21 @@ def stepF (s : St) (v : Variant) : Option St :=
   match s.fpc, v with
   | .start, .ok => some (fNext s)
   | .wait, .ok => if s.cqBuf ≠ [] then some (fNext s) else none
-  | .acq m, .ok => (acq s.cqWlock).map fun x => { s with cqWlock := x, fpc := .send m }
+  | .acq m, .ok => (acq s.cqWlock).map fun x => { s with cqWlock := x, oCqWlock := some (.F), fpc := .send m }
   | .send m, .ok => some { s with cqPipe := s.cqPipe ++ [m], fpc := .rel }
-  | .rel, .ok => some (fNext { s with cqWlock := s.cqWlock + 1 })
-  | .acqBig w, .ok => (acq s.cqWlock).map fun x => { s with cqWlock := x, fpc := .sendBig w }
+  | .rel, .ok => some (fNext { s with cqWlock := s.cqWlock + 1, oCqWlock := none })
+  | .acqBig w, .ok => (acq s.cqWlock).map fun x => { s with cqWlock := x, oCqWlock := some (.F), fpc := .sendBig w }
   | .sendBig w, .ok => some { s with fpc := .relBig w }
-  | .relBig w, .ok => some { s with cqWlock := s.cqWlock + 1, fpc := .errSem w }
+  | .relBig w, .ok => some { s with cqWlock := s.cqWlock + 1, oCqWlock := none, fpc := .errSem w }
   -- `_on_queue_feeder_error`: give the slot back, fail the future, wake the manager
   | .errSem w, .ok =>
       let s := { s with cqSem := s.cqSem + 1 }
       let s := if w ∈ s.pending then { (setFut s w .excFeeder) with pending := s.pending.erase w } else s
       some { s with running := s.running.erase w, fpc := .errAcq }
   | .errAcq, .ok => (acq s.shut).map fun x =>
-      { s with shut := x, fpc := if s.wakeupClosed then .errRel else .errWake }
+      { s with shut := x, oShut := some (.F), fpc := if s.wakeupClosed then .errRel else .errWake }
   | .errWake, .ok => some { s with wakeup := s.wakeup + 1, fpc := .errRel }
-  | .errRel, .ok => some (fNext { s with shut := s.shut + 1 })
+  | .errRel, .ok => some (fNext { s with shut := s.shut + 1, oShut := none })
   | _, _ => none
 
 def stepM (s : St) (v : Variant) : Option St :=
@@ -478,42 +485,42 @@ def stepM (s : St) (v : Variant) : Option St :=
   | .clrRecv k, .ok => if s.wakeup > 0 then some { s with wakeup := s.wakeup - 1, mpc := .clrPoll k } else none
   -- a worker announced its exit
   | .pidAcq p, .ok => (acq s.mgmt).map fun x =>
-      { s with mgmt := x, procDict := s.procDict.erase p, mpc := .pidRel p (p ∈ s.procDict) }
+      { s with mgmt := x, oMgmt := some (.M), procDict := s.procDict.erase p, mpc := .pidRel p (p ∈ s.procDict) }
   | .pidRel p known, .ok =>
-      let s := { s with mgmt := s.mgmt + 1 }
+      let s := { s with mgmt := s.mgmt + 1, oMgmt := none }
       some (if known then { s with mpc := .pidRelExit p } else mRespawnCheck s)
   | .pidRelExit p, .ok => some { s with exitL := upd s.exitL p (s.exitL p + 1), mpc := .pidJoin p }
   | .pidJoin p, .ok => if isDead s p then some (mRespawnCheck s) else none
-  | .rspAcq, .ok => (acq s.mgmt).map fun x => mSpawnLoop { s with mgmt := x }
+  | .rspAcq, .ok => (acq s.mgmt).map fun x => mSpawnLoop { s with mgmt := x, oMgmt := some (.M) }
   | .rspExit, .ok => some { s with exitL := upd s.exitL s.nextPid 0, mpc := .rspStart }
   | .rspStart, .ok => some (mSpawnLoop (spawn s))
-  | .rspRel, .ok => some (mDropRef { s with mgmt := s.mgmt + 1 })
-  | .cbAcq, .ok => (acq s.shut).map fun x => { s with shut := x, mpc := if s.wakeupClosed then .cbRel else .cbWake }
+  | .rspRel, .ok => some (mDropRef { s with mgmt := s.mgmt + 1, oMgmt := none })
+  | .cbAcq, .ok => (acq s.shut).map fun x => { s with shut := x, oShut := some (.M), mpc := if s.wakeupClosed then .cbRel else .cbWake }
   | .cbWake, .ok => some { s with wakeup := s.wakeup + 1, mpc := .cbRel }
-  | .cbRel, .ok => some (mAfterItem { s with shut := s.shut + 1 })
+  | .cbRel, .ok => some (mAfterItem { s with shut := s.shut + 1, oShut := none })
   -- flag_executor_shutting_down
-  | .flagAcq, .ok => (acq s.shut).map fun x => { s with shut := x, shutdownFlag := true, mpc := .flagRel }
-  | .flagRel, .ok => some (mAfterFlag { s with shut := s.shut + 1 })
+  | .flagAcq, .ok => (acq s.shut).map fun x => { s with shut := x, oShut := some (.M), shutdownFlag := true, mpc := .flagRel }
+  | .flagRel, .ok => some (mAfterFlag { s with shut := s.shut + 1, oShut := none })
   -- terminate_broken
   | .brkAcq b, .ok => (acq s.shut).map fun x =>
-      { s with shut := x, shutdownFlag := true, broken := some b, mpc := .brkRel b }
+      { s with shut := x, oShut := some (.M), shutdownFlag := true, broken := some b, mpc := .brkRel b }
   | .brkRel b, .ok =>
-      let s := { s with shut := s.shut + 1 }
+      let s := { s with shut := s.shut + 1, oShut := none }
       let s := { (failAll s s.pending (if b == .terminated then .excTerminated else .excBroken)) with pending := [] }
-      some (mKillNext s true mJoinStart)
-  | .kill p j, .ok => some { (if alive s p then die s p (-9) else s) with mpc := .killJoin p j }
-  | .killJoin p j, .ok => if isDead s p then some (mKillNext s j mJoinStart) else none
+      some (mKillNext s)
+  | .kill p, .ok => some { (if alive s p then die s p (-9) else s) with mpc := .killJoin p }
+  | .killJoin p, .ok => if isDead s p then some (mKillNext s) else none
   -- join_executor_internals
-  | .jAcq1, .ok => (acq s.mgmt).map fun x => mRelExitNext { s with mgmt := x } s.procDict 0
+  | .jAcq1, .ok => (acq s.mgmt).map fun x => mRelExitNext { s with mgmt := x, oMgmt := some (.M) } s.procDict 0
   | .jRelExit (p :: rest) n, .ok =>
       if s.exitL p ≥ 1 then some { s with mpc := .raised "ValueError: semaphore or lock released too many times" }
       else some (mRelExitNext { s with exitL := upd s.exitL p (s.exitL p + 1) } rest (n + 1))
-  | .jRel1 n, .ok => some (mJoinLoop { s with mgmt := s.mgmt + 1 } n 0 0)
-  | .jAliveAcq n sent cool, .ok => (acq s.mgmt).map fun x => mAliveNext { s with mgmt := x } s.procDict 0 n sent cool
+  | .jRel1 n, .ok => some (mJoinLoop { s with mgmt := s.mgmt + 1, oMgmt := none } n 0 0)
+  | .jAliveAcq n sent cool, .ok => (acq s.mgmt).map fun x => mAliveNext { s with mgmt := x, oMgmt := some (.M) } s.procDict 0 n sent cool
   | .jAlive (p :: rest) cnt n sent cool, .ok =>
       some (mAliveNext s rest (cnt + (if isDead s p then 0 else 1)) n sent cool)
   | .jAliveRel cnt n sent cool, .ok =>
-      let s := { s with mgmt := s.mgmt + 1 }
+      let s := { s with mgmt := s.mgmt + 1, oMgmt := none }
       some (if cnt > 0 then { s with mpc := .jPut (n - sent) n sent cool } else mJoinClose s)
   | .jPut k n sent cool, .ok => (acq s.cqSem).map fun x =>
       let s := { s with cqSem := x }
@@ -526,11 +533,11 @@ def stepM (s : St) (v : Variant) : Option St :=
   | .jPutTStart k n sent cool, .ok =>
       some (mAfterPut { s with fpc := .start, cqBuf := s.cqBuf ++ [.stop] } k n sent cool)
   | .jSleep n sent cool, .ok => some (mJoinLoop s n sent (cool + 1))
-  | .jShutAcq, .ok => (acq s.shut).map fun x => { s with shut := x, wakeupClosed := true, mpc := .jShutRel }
-  | .jShutRel, .ok => some { s with shut := s.shut + 1, mpc := .jAcq2 }
-  | .jAcq2, .ok => (acq s.mgmt).map fun x => mJoinProcs { s with mgmt := x }
+  | .jShutAcq, .ok => (acq s.shut).map fun x => { s with shut := x, oShut := some (.M), wakeupClosed := true, mpc := .jShutRel }
+  | .jShutRel, .ok => some { s with shut := s.shut + 1, oShut := none, mpc := .jAcq2 }
+  | .jAcq2, .ok => (acq s.mgmt).map fun x => mJoinProcs { s with mgmt := x, oMgmt := some (.M) }
   | .jJoin p, .ok => if isDead s p then some (mJoinProcs s) else none
-  | .jRel2, .ok => some { s with mgmt := s.mgmt + 1, mpc := .done }
+  | .jRel2, .ok => some { s with mgmt := s.mgmt + 1, oMgmt := none, mpc := .done }
   | _, _ => none
 
 /-- dispatch of a script operation at its `api` announcement -/
@@ -562,7 +569,7 @@ def stepU (s : St) (k : Nat) (v : Variant) : Option St :=
   | .api, .ok => (s.ucur k).map (uDispatch s k)
   -- submit
   | .subAcqShut t, .ok => (acq s.shut).map fun x =>
-      let s := { s with shut := x }
+      let s := { s with shut := x, oShut := some (.U k) }
       if s.broken.isSome then
         -- the stored exception object is raised: its traceback now references the executor, which
         -- from here on can only be reclaimed by the cyclic garbage collector (not modelled)
@@ -573,42 +580,42 @@ def stepU (s : St) (k : Nat) (v : Variant) : Option St :=
         set .subAcqMgmt { s with pending := s.pending ++ [i], workIds := s.workIds ++ [i],
                                  futs := s.futs ++ [.pending], taskOf := s.taskOf ++ [t], queueCount := i + 1 }
   | .subAcqMgmt, .ok => (acq s.mgmt).map fun x =>
-      let s := { s with mgmt := x }
+      let s := { s with mgmt := x, oMgmt := some (.U k) }
       if s.procDict.length ≠ s.cfg.maxWorkers then uSpawnLoop s k
       else if s.mpc = .none then set .subTStart s else set .subRelMgmt s
   | .subExit, .ok => some (set .subPStart { s with exitL := upd s.exitL s.nextPid 0 })
   | .subPStart, .ok => some (uSpawnLoop (spawn s) k)
   | .subTStart, .ok => some (set .subRelMgmt { s with mpc := .start, threadReg := true })
   | .subRelMgmt, .ok =>
-      some (set (if s.wakeupClosed then .subRelShut else .subWake) { s with mgmt := s.mgmt + 1 })
+      some (set (if s.wakeupClosed then .subRelShut else .subWake) { s with mgmt := s.mgmt + 1, oMgmt := none })
   | .subWake, .ok => some (set .subRelShut { s with wakeup := s.wakeup + 1 })
-  | .subRelShut, .ok => some (uRelease { s with shut := s.shut + 1, visible := s.futs.length } k)
+  | .subRelShut, .ok => some (uRelease { s with shut := s.shut + 1, oShut := none, visible := s.futs.length } k)
   -- shutdown(wait, kill_workers)
   | .sdAcq1 w kl, .ok => (acq s.shut).map fun x =>
-      set (.sdRel1 w) { s with shut := x, shutdownFlag := true, killFlag := kl }
+      set (.sdRel1 w) { s with shut := x, oShut := some (.U k), shutdownFlag := true, killFlag := kl }
   | .sdRel1 w, .ok =>
-      let s := { s with shut := s.shut + 1 }
+      let s := { s with shut := s.shut + 1, oShut := none }
       some (if s.attrsDropped then uRelease s k else set (.sdAcq2 w) s)
   | .sdAcq2 w, .ok => (acq s.shut).map fun x =>
-      set (if s.wakeupClosed then .sdRel2 w else .sdWake w) { s with shut := x }
+      set (if s.wakeupClosed then .sdRel2 w else .sdWake w) { s with shut := x, oShut := some (.U k) }
   | .sdWake w, .ok => some (set (.sdRel2 w) { s with wakeup := s.wakeup + 1 })
   | .sdRel2 w, .ok =>
-      let s := { s with shut := s.shut + 1 }
+      let s := { s with shut := s.shut + 1, oShut := none }
       some (if s.mpc ≠ .none ∧ w then set .sdAcqG s else uRelease { s with attrsDropped := true } k)
-  | .sdAcqG, .ok => (acq s.gshut).map fun x => set .sdJoin { s with gshut := x }
+  | .sdAcqG, .ok => (acq s.gshut).map fun x => set .sdJoin { s with gshut := x, oGshut := some (.U k) }
   | .sdJoin, .ok => if mEnded s then some (set .sdRelG s) else none
-  | .sdRelG, .ok => some (uRelease { s with gshut := s.gshut + 1, attrsDropped := true, threadReg := false } k)
+  | .sdRelG, .ok => some (uRelease { s with gshut := s.gshut + 1, oGshut := none, attrsDropped := true, threadReg := false } k)
   -- weak-reference callback
-  | .cbAcq, .ok => (acq s.shut).map fun x => set (if s.wakeupClosed then .cbRel else .cbWake) { s with shut := x }
+  | .cbAcq, .ok => (acq s.shut).map fun x => set (if s.wakeupClosed then .cbRel else .cbWake) { s with shut := x, oShut := some (.U k) }
   | .cbWake, .ok => some (set .cbRel { s with wakeup := s.wakeup + 1 })
-  | .cbRel, .ok => some (uNext { s with shut := s.shut + 1 } k)
+  | .cbRel, .ok => some (uNext { s with shut := s.shut + 1, oShut := none } k)
   -- _python_exit
-  | .peAcq, .ok => (acq s.shut).map fun x => set (if s.wakeupClosed then .peRel else .peWake) { s with shut := x }
+  | .peAcq, .ok => (acq s.shut).map fun x => set (if s.wakeupClosed then .peRel else .peWake) { s with shut := x, oShut := some (.U k) }
   | .peWake, .ok => some (set .peRel { s with wakeup := s.wakeup + 1 })
-  | .peRel, .ok => some (set .peAcqG { s with shut := s.shut + 1 })
-  | .peAcqG, .ok => (acq s.gshut).map fun x => set .peJoin { s with gshut := x }
+  | .peRel, .ok => some (set .peAcqG { s with shut := s.shut + 1, oShut := none })
+  | .peAcqG, .ok => (acq s.gshut).map fun x => set .peJoin { s with gshut := x, oGshut := some (.U k) }
   | .peJoin, .ok => if mEnded s then some (set .peRelG s) else none
-  | .peRelG, .ok => some (uNext { s with gshut := s.gshut + 1 } k)
+  | .peRelG, .ok => some (uNext { s with gshut := s.gshut + 1, oGshut := none } k)
   | _, _ => none
 
 def step (s : St) (a : Actor) (v : Variant) : Option St :=
